@@ -772,5 +772,15 @@ for r, what in (('R111', 'mixture_model_utils / cacgmm / cACG'), ('R112', 'cwmm 
 # ---- memo tables whose stored value is a function of the key (pbv/cachekey.py): a module-level spline cache keyed by everything the spline depends on, an instance memo of the Bingham
 #      solver keyed by the exact eigenvalues - the broken twins are the seeds S21 / S54 (key ignores max_concentration), S116 / S229 (rounded key), S237 (id() key), S243 (subscripts only)
 C.append(dict(id='N24-R121-correct-caches', kind='neutral', properties=ALLP, note='memo tables keyed by everything the stored value depends on (C09 stops undecided: the spline is returned out of the table, the interp1d call is no longer the returned value)', patch='neutral_patches/R121.patch', edits=[], inconclusive_ok=['C09']))
+# ---- twelfth campaign: correct speed / memory optimisations - memo tables keyed by value (einsum paths by subscripts + shapes, finfo.tiny by dtype, selection tables), lru_cache helpers
+#      that return immutable values, reused work buffers that are fully written, out= on own arrays, skipped identity transpositions, a peeled first EM iteration, np.copyto into a
+#      reshape view of an own buffer, dtype handling by result_type
+for r, what in (('R131', 'mixture_model_utils / cacgmm / cACG'), ('R132', 'cwmm / cbmm / Watson / Bingham / distribution.utils'), ('R133', 'gmm / gaussian / vMF / gcacgmm / vmfcacgmm'),
+                ('R134', 'beamformer / beamformer_wrapper / math.solve'), ('R135', 'permutation_alignment / initializers'), ('R136', 'mask_module / sxr_module / si_sdr / utils')):
+    # checks that end INCONCLUSIVE (exit 2, no VIOLATION line): a value that comes out of a memo (module-level table, new lru_cache helper) is not followed as a value, a peeled EM
+    # iteration is not the one-loop form the alternation rules read, a transposition skipped under a condition on mask.ndim is not folded (DESIGN 10.5, twelfth campaign)
+    undecided = {'R132': ['C02', 'C03', 'C07'], 'R133': ['C01', 'C02', 'C03', 'C05', 'C06', 'C07', 'C08', 'C09'], 'R134': ['C10'], 'R135': ['C14', 'C15', 'C16'], 'R136': ['C19']}.get(r, [])
+    C.append(dict(id=f'N25-{r}-optim', kind='neutral', properties=ALLP, note=f'independent correct optimisations of {what}', patch=f'neutral_patches/{r}.patch', edits=[],
+                  inconclusive_ok=undecided))
 out.write_text(json.dumps(C, indent=1))
 print(len(C), 'variants ->', out)
